@@ -42,6 +42,9 @@ def gen_base(chk, i):
     k0 = g.threads()[0].key
     g.emit(k0, "OHx", obs.i32(0, k0[2], 0))
     g.emit(k0, "VYc", obs.u32(1) + b"base type\0", True)
+    # two type-create jumbos back to back: clearing the jumbo flag of the
+    # second one puts a non-jumbo type event right after a jumbo event
+    g.emit(k0, "VYc", obs.u32(900) + b"second\0", True)
     g.emit(k0, "VTc", obs.u32(1, 1))
     g.emit(k0, "VTx", obs.u32(1, 0))
     g.emit(k0, "OM=", obs.i64(5) + obs.i32(3))
@@ -222,6 +225,9 @@ def run_base(bi):
             muts = []
             share = max(1, limit // len(bycls))
             for cls, lst in bycls.items():
+                if len(lst) <= 60:
+                    muts.extend(lst)          # small classes are never sampled
+                    continue
                 step = max(1, len(lst) // share)
                 muts.extend(lst[::step])
         md = wd + "-m"
